@@ -18,17 +18,15 @@ META = dict(
     bounds=dict(quick="n = 2, linear model (quadratic in thorough), <= 2 sources, p = 2; iterative treatment unrolled to 2 refits", thorough="same + quadratic model, more source mixes"),
     outside=["no nearby point has a lower cost / backends agree to a fraction of sigma (numerical optimisation; concrete-only sampling 'numeric/*')", "convergence of the iterative scheme beyond the unrolled refits (kafe2 default: 10)"],
     assumptions=["covariance positive definite at the points where it is decomposed", "start values != 0"],
-    stubs=stubs.STUB_NOTES + ["cholesky_decomposition / qr_decomposition inside the fit graph are wrapped by a recorder (call-through)", "fit.iterative_do_fit.max_iterations bounded to 2 in symbolic mode"],
+    stubs=stubs.STUB_NOTES + ["cholesky_decomposition / qr_decomposition inside the fit graph are wrapped by a recorder (call-through)", "fit.iterative_do_fit.max_iterations set to 1 (quick) / 2 (thorough) in the protocol scenarios, symbolic and replay alike (a configuration value; default 10 in numeric/*)"],
     exhaustive=dict(quick=True, thorough=True),
 )
-OPTS = dict(quick=dict(task_timeout=500, ob_ms=25000), thorough=dict(task_timeout=1500, ob_ms=60000))
+OPTS = dict(quick=dict(task_timeout=500, ob_ms=25000), thorough=dict(task_timeout=2400, ob_ms=60000, unknown_budget=3))
 
 
 def setup_symbolic():
-    import os
-
     stubs.install_backends(True)
-    stubs.install_decomp_recorder(max_iterations=2 if os.environ.get("VERIF_TIER", "quick") == "thorough" else 1)
+    stubs.install_decomp_recorder()
 
 
 def setup_concrete():
@@ -36,7 +34,12 @@ def setup_concrete():
     stubs.install_decomp_recorder()
 
 
-SRC = {"SA": ("SA", "y", "data"), "SRm": ("SR", "y", "model"), "SAx": ("SA", "x", "data"), "SRx": ("SR", "x", "data")}
+def _budget(n):
+    """fit.iterative_do_fit.max_iterations for this scenario (a configuration value; kafe2's default is 10)"""
+    stubs.DECOMP_OPTS["max_iterations"] = n
+
+
+SRC = {"SA": ("SA", "y", "data"), "SRm": ("SR", "y", "model"), "SAx": ("SA", "x", "data"), "SRx": ("SR", "x", "data"), "SAxm": ("SA", "x", "model")}
 
 
 def _min_calls(pb):
@@ -74,6 +77,9 @@ def _cov_at(pb, q, frozen_at, model_ref_data):
 
 
 def sc_protocol(cx, minimizer, srcs, algo, model="lin", fixed=()):
+    import os
+
+    _budget(2 if os.environ.get("VERIF_TIER", "quick") == "thorough" else 1)
     del stubs.DECOMP[:]
     pb = B.build(cx, "xy", minimizer, cost="chi2_fast", model=model, sources=[SRC[s] for s in srcs], fixed=fixed, dynamic_error_algorithm=algo, rho=0)
     fit = pb.fit
@@ -175,7 +181,7 @@ def sc_limits(cx, minimizer, fixed, limited):
     pb.assume_pd()
     fit = pb.fit
     fit.do_fit()
-    tag = "limits/%s/fixed-%s/limited-%s" % (minimizer, "+".join(fixed) or "none", "+".join(limited))
+    tag = "limits/%s/fixed-%s/limited-%s" % (minimizer, "+".join(fixed) or "none", "+".join(l_ if isinstance(l_, str) else "%s.%s" % l_ for l_ in limited))
     free = [nm for nm in pb.par_names if nm not in pb.fixed]
     if minimizer == "scipy":
         c = [c for c in stubs.CALLS if c["kind"] == "opt.minimize" and not c["constraints"]][-1]
@@ -203,7 +209,8 @@ def sc_limits(cx, minimizer, fixed, limited):
     pv = fit.parameter_values
     for nm, (lo, hi) in pb.limits.items():
         i = pb.par_names.index(nm)
-        cx.holds(tag + ":%s-within-closed-limits" % nm, cx.And(pv[i] >= lo, pv[i] <= hi))
+        conds = ([pv[i] >= lo] if lo is not None else []) + ([pv[i] <= hi] if hi is not None else [])
+        cx.holds(tag + ":%s-within-closed-limits" % nm, cx.And(*conds) if len(conds) > 1 else conds[0])
     for nm, v in pb.fixed.items():
         cx.eq(tag + ":fixed-%s-untouched" % nm, pv[pb.par_names.index(nm)], v)
 
@@ -213,6 +220,8 @@ def sc_numeric(cx, case):
     import numpy as np
 
     from kafe2 import XYFit
+
+    _budget(None)  # kafe2's own default
 
     x = np.array([0.5, 1.0, 2.0, 3.0, 4.5])
     y = np.array([1.1, 1.9, 4.2, 5.8, 9.3])
@@ -264,6 +273,43 @@ def sc_numeric(cx, case):
             cx.concrete("numeric:%s:%s:fixed-exact" % (case, mini), p0[1] == 0.25, info="%r" % p0)
 
 
+def sc_after_iterative(cx, minimizer, budget):
+    """concrete-only: after an iterative fit (any configured iteration budget, exhausted or not) nothing stays pinned --
+    the observables follow a later change exactly like a fit that was never minimised"""
+    import numpy as np
+
+    from kafe2 import XYFit
+
+    _budget(budget)
+    X = np.array([0.5, 1.0, 1.5, 2.0, 2.5, 3.0, 3.5, 4.0])
+    Y = np.array([1.774, 2.083, 2.566, 2.9, 3.949, 4.926, 6.254, 7.618])
+
+    def model(x, a=1.0, b=1.0):
+        return a * np.exp(b * x / 2.0)
+
+    def make():
+        f = XYFit([X, Y], model, minimizer=minimizer, dynamic_error_algorithm="iterative")
+        f.add_error("x", 0.3, name="x_abs")
+        f.add_error("y", 0.1, name="y_abs")
+        f.add_error("y", 0.05, name="y_rel_model", relative=True, reference="model")
+        return f
+
+    fit = make()
+    fit.do_fit()
+    lab = "after-iterative:%s:budget-%s" % (minimizer, budget)
+    frozen = [nm for nm in ("total_error", "total_cov_mat", "y_model_error", "y_model_cov_mat") if fit._nexus.get(nm).frozen]
+    cx.concrete(lab + ":no-node-left-frozen", not frozen, info="frozen after do_fit: %r" % frozen)
+    ref = make()
+    for f in (fit, ref):
+        f.set_parameter_values(a=0.8, b=1.3)
+        f.disable_error("y_abs")
+        f.add_error("y", 0.2, name="y_abs_2")
+    for name in ("y_model", "y_model_error", "y_model_cov_mat", "y_total_error", "total_error", "total_cov_mat", "goodness_of_fit"):
+        a, b = np.asarray(getattr(fit, name), dtype=float), np.asarray(getattr(ref, name), dtype=float)
+        cx.concrete(lab + ":%s-follows-later-changes" % name, bool(np.allclose(a, b, rtol=1e-9, atol=1e-12)), info="max deviation %r" % (float(np.max(np.abs(a - b))),))
+    _budget(None)
+
+
 def sc_twin(cx):
     """sensitivity twin: the LAST nonlinear pass does not use the covariance frozen at the first result"""
     del stubs.DECOMP[:]
@@ -278,7 +324,7 @@ def sc_twin(cx):
 def scenarios(tier, seed):
     S = []
     q = tier == "quick"
-    mixes = [["SA"], ["SA", "SAx"], ["SA", "SRm"], ["SA", "SRx"], ["SRm", "SAx"]]
+    mixes = [["SA"], ["SA", "SAx"], ["SA", "SRm"], ["SA", "SRx"], ["SRm", "SAx"], ["SA", "SAxm"]]
     for minimizer in ("scipy", "iminuit"):
         for algo in ("nonlinear", "iterative"):
             for srcs in mixes:
@@ -292,9 +338,14 @@ def scenarios(tier, seed):
             S.append(Scenario("protocol/%s/SA+SAx/%s/fixed-b" % (minimizer, algo), sc_protocol, family="protocol/%s/%s" % (minimizer, algo), params=dict(minimizer=minimizer, srcs=["SA", "SAx"], algo=algo, fixed=("b",))))
         if not q:
             S.append(Scenario("protocol/%s/SA+SAx/nonlinear/quad" % minimizer, sc_protocol, family="protocol/%s/nonlinear" % minimizer, params=dict(minimizer=minimizer, srcs=["SA", "SAx"], algo="nonlinear", model="quad", fixed=("c",))))
-        for fixed, limited in (((), ("a",)), (("a",), ("b",)), (("b",), ("a", "c")), (("a", "c"), ("b",)), ((), ("c",))):
-            S.append(Scenario("limits/%s/fixed-%s/limited-%s" % (minimizer, "+".join(fixed) or "none", "+".join(limited)), sc_limits, family="limits/%s" % minimizer, params=dict(minimizer=minimizer, fixed=fixed, limited=limited)))
+        for fixed, limited in (((), ("a",)), (("a",), ("b",)), (("b",), ("a", "c")), (("a", "c"), ("b",)), ((), ("c",)),
+                               (("a",), (("b", "lower"),)), ((), (("a", "upper"),)), (("c",), (("a", "lower"), ("b", "upper"))), (("b",), (("c", "upper"),))):
+            lim_s = "+".join(l_ if isinstance(l_, str) else "%s.%s" % l_ for l_ in limited)
+            S.append(Scenario("limits/%s/fixed-%s/limited-%s" % (minimizer, "+".join(fixed) or "none", lim_s), sc_limits, family="limits/%s" % minimizer, params=dict(minimizer=minimizer, fixed=fixed, limited=limited)))
     for case in ("plain", "x-errors", "model-relative", "iterative", "limited", "fixed"):
         S.append(Scenario("numeric/%s" % case, sc_numeric, family="numeric", params=dict(case=case), concrete_only=True))
+    for minimizer in ("scipy", "iminuit"):
+        for budget in (1, 2, None):
+            S.append(Scenario("after-iterative/%s/budget-%s" % (minimizer, budget), sc_after_iterative, family="after-iterative", params=dict(minimizer=minimizer, budget=budget), concrete_only=True))
     S.append(Scenario("twin/last-pass-frozen", sc_twin, twin=True))
     return S
